@@ -188,9 +188,18 @@ def run_one(tape, tier, prop):
     res.sample["flags"] = {"skip_brute": skip_brute, "skip_case": skip_case}
     ref = RefRuleset(rdir, skip_brute=skip_brute, skip_case=skip_case)
     if any("M" in b["replacements"] for b in ref.base) and not ref.vars["M"]:
-        # a Markov structure whose variable has no level at all (the trainer found no keyspace anywhere): not a
-        # well-formed ruleset; the default guesser cannot start on it either
-        res.rejected = "markov_variable_without_entries"
+        # a Markov structure whose variable lists no level.  If the saved OMEN model has no string at any level the trainer
+        # could list (0..18) the ruleset is degenerate and rejected; otherwise the trainer failed to list a level that exists
+        from ..refmodel import RefOmen
+        try:
+            ro = RefOmen(os.path.join(rdir, "Omen"))
+            some = any(ro.count(lv) > 0 for lv in range(0, 19))
+        except Exception:
+            some = False
+        if not some:
+            res.rejected = "markov_variable_without_entries"
+            return res
+        res.violate("C16", "markov_variable_empty_although_levels_have_strings", {"sample": res.sample})
         return res
     with guesser.streams():
         pcfg = guesser.load(rdir, skip_brute=skip_brute, skip_case=skip_case)
@@ -268,6 +277,7 @@ def run_one(tape, tier, prop):
         c09._PG[0] = None
     if problem:
         res.violate("C16", problem[0], problem[1])
+    outputs = []
     # (d) whole process images with scripted extreme draw sequences
     if not res.violations:
         lang = set()
@@ -329,6 +339,7 @@ def run_one(tape, tier, prop):
                     res.violate("C16", "random_walk_not_seeded_reproducibly", {"seeds": rng.seeds[:4]})
                     break
                 words = guesser.split_lines(text)
+                outputs.append(words)
                 if len(words) != N:
                     res.violate("C16", "limit_not_exact", {"mode": mode, "limit": N, "written": len(words)})
                     break
@@ -342,6 +353,7 @@ def run_one(tape, tier, prop):
                 for _ in range(2):
                     text, seam, r = c09.run_proc(["-r", "R", "-s", "S", "--mode", "random_walk", "--limit", "15"] + flag_args)
                     outs.append(text if not r.exc else "EXC:" + r.exc[-200:])
+                outputs.append(outs[0])
                 if outs[0] != outs[1]:
                     res.violate("C16", "random_walk_not_reproducible", {"first": outs[0][:80], "second": outs[1][:80]})
                 elif outs[0].startswith("EXC:"):
@@ -350,7 +362,7 @@ def run_one(tape, tier, prop):
     multi = any(len(g) >= 2 for g in ref.vars.values())
     res.nontrivial = digest_of([spec["base"], spec["vars"], skip_brute, skip_case]) if (nstruct >= 2 and multi) else None
     res.shape = (nstruct, sum(1 for b in ref.base if "M" in b["replacements"]), skip_brute, skip_case)
-    res.digest = digest_of([spec["base"], spec["vars"], [v.as_dict() for v in res.violations]])
+    res.digest = digest_of([spec["base"], spec["vars"], outputs, [v.as_dict() for v in res.violations]])
     return res
 
 
